@@ -11,7 +11,14 @@ def xtok(text):
 
 SELS = ["-", "0", "zone:In:a", "zone:In:", "zone:NotIn:a+b", "zone:Exists:", "zone:Exists:a", "zone:DoesNotExist:", "rack:Gt:3", "rack:Gt:3+4",
         "rack:Lt:", "zone:Foo:a", "-bad-:In:a", "zone:In:a;tier:Exists:", "zone:In:a|tier:Exists:", "F.metadata.name:In:n1", "F.metadata.name:In:n1+n2",
-        "F.metadata.name:Exists:", "F.spec.foo:In:n1", "F.metadata.name:In:-Bad-", "zone:In:a;F.metadata.name:NotIn:n1", ""]
+        "F.metadata.name:Exists:", "F.spec.foo:In:n1", "F.metadata.name:In:-Bad-", "zone:In:a;F.metadata.name:NotIn:n1",
+        # key validity (IsQualifiedName) and node-name validity (IsDNS1123Subdomain) are computed by the model (ValidSel.v, Lbl.v)
+        "example.com/zone:In:a", "Example.com/zone:In:a", "a/b/c:Exists:", "/x:Exists:", "x/:Exists:", "a..b/c:Exists:", "k8s.io/in:In:in", "in:In:a", "notin:Exists:",
+        "%s:Exists:" % ("z" * 63), "%s:Exists:" % ("z" * 64), "a.b-c_d/E.f-g_h:Exists:", "ex-ample.com/x_:Exists:", "ex_ample.com/x:Exists:", "%s/x:Exists:" % ".".join(["a" * 63] * 4),
+        "%s/x:Exists:" % (".".join(["a" * 63] * 3) + "." + "b" * 61), "-a.com/x:Exists:", "a-.com/x:Exists:", "zone:In:EMPTY", "zone:Gt:EMPTY",
+        "F.metadata.name:In:n1.example.com", "F.metadata.name:In:N1", "F.metadata.name:In:a..b", "F.metadata.name:In:EMPTY", "F.metadata.name:NotIn:%s" % ".".join(["a" * 63] * 4),
+        "F.metadata.name:In:%s" % (".".join(["a" * 63] * 3) + "." + "b" * 61), "F.metadata.name:In:%s" % (".".join(["a" * 63] * 3) + "." + "b" * 62), "F.metadata.name:In:a-", "F.metadata.name:Gt:5",
+        "F.Metadata.name:In:n1", "zone:In:a|F.metadata.name:In:n1|-", ""]
 BAD = ["abc", "10.0.0.0", "10.0.0.0/33", "fd00::/129", "/24", " 10.0.0.0/24", "10.0.0.1/24", "::ffff:10.0.0.0/104"]
 
 
@@ -76,7 +83,7 @@ def run(res, tier, seed):
     res.coverage.update({
         "evaluations": len(lines), "distinct_nontrivial": len(set(lines)),
         "rule": "grid: every IPv4 prefix length x perNodeHostBits -2..130; IPv6 prefix lengths (every 3rd in quick, all in thorough) x the same; "
-                "random dual-stack / wrong-family / malformed / empty fields x 21 selector shapes; update pairs differing in every subset of the four spec fields; "
+                "random dual-stack / wrong-family / malformed / empty fields x 52 selector shapes (operators, value counts, qualified-name and DNS-subdomain boundaries of keys and node names); update pairs differing in every subset of the four spec fields; "
                 "a case is non-trivial when its line is distinct",
         "samples": [lines[0], lines[len(lines) // 2], lines[-1]],
         "distribution": {"accepted": acc, "rejected": len(flat) - acc, "update_pairs": sum(1 for l in lines if l.startswith("vupd"))},
